@@ -103,7 +103,7 @@ class Tamper:
     to that victim passes through."""
 
     OPS = ("flip", "trunc", "extend", "relabel", "side-fresh", "side-own", "reflect", "inject",
-           "dupdiff", "swap")
+           "dupdiff", "swap", "early-side")
 
     def __init__(self, world, ops):
         self.world = world
@@ -114,6 +114,8 @@ class Tamper:
         self.stored = {}
         self.tampered = []       # (victim name, op, kwargs as sent)
         self.held = {}
+        self.early_pake = {}
+        self.early_done = {}
         self.out_of_order = 0
         self.dups = 0
 
@@ -129,6 +131,26 @@ class Tamper:
         self.count[vs] = n + 1
         self.stored.setdefault(vs, []).append(dict(kwargs))
         out = [("genuine", dict(kwargs))]
+        # early-side: the peer's PAKE is held back until one later message of the peer has been handed
+        # out first, under a foreign side label (the client's pre-PAKE queue)
+        early = [op for op in self.ops if op["victim"] == v and op["op"] == "early-side"]
+        if early and kwargs.get("side") != vs and not self.early_done.get(vs):
+            if kwargs.get("phase") == "pake":
+                if vs not in self.early_pake:
+                    self.early_pake[vs] = dict(kwargs)
+                    return True
+            elif vs in self.early_pake:
+                op = early[0]
+                t = dict(kwargs)
+                t["id"] = "%04x" % self.rng.getrandbits(16)
+                t["side"] = "%010x" % self.rng.getrandbits(40) if op.get("as", "fresh") == "fresh" else vs
+                self.early_done[vs] = True
+                self.tampered.append((v, "tampered-early-side", dict(t)))
+                conn.real_send("message", **t)
+                conn.real_send("message", **self.early_pake.pop(vs))
+                if op.get("keep", True):
+                    conn.real_send("message", **kwargs)
+                return True
         for op in self.ops:
             if op["victim"] == v and op["at"] == n:
                 out = self.apply(op, vs, dict(kwargs), out)
